@@ -1,6 +1,7 @@
 package core
 
 import (
+	"encoding/hex"
 	"errors"
 	"fmt"
 	"strconv"
@@ -53,13 +54,15 @@ func (ks keySchema) getKeyValue(attrs map[string]string, item map[string]*types.
 
 // renderKeyPart renders a key attribute value so that equal values have equal renderings and
 // the renderings sort like the values: numbers by numeric value whatever their notation
-// ("1", "1.0" and "1e0" are the same key)
+// ("1", "1.0" and "1e0" are the same key), binaries byte by byte
 func renderKeyPart(val interface{}, typ string) string {
 	switch v := val.(type) {
 	case string:
 		if typ == "N" {
 			return encodeNumberKey(v)
 		}
+	case []byte:
+		return hex.EncodeToString(v)
 	}
 
 	return fmt.Sprintf("%v", val)
